@@ -3,8 +3,9 @@
    theorems validate it as an oracle: its writer, parser and decoder are mutually
    consistent for ALL streams / tables / block sequences (no size bound). *)
 From Coq Require Import List ZArith Bool.
-From LJT Require Import model.T81Spec proofs.T81StuffProofs proofs.T81ParseProofs proofs.T81LenProofs
-  proofs.T81BlockProofs proofs.T81ScanProofs proofs.T81HuffProofs proofs.T81WriterProofs proofs.T81WrittenProofs proofs.T81ParseInvProofs proofs.T81Examples.
+From LJT Require Import model.T81Spec model.T81Arith gen.GenAricom proofs.T81StuffProofs proofs.T81ParseProofs proofs.T81LenProofs
+  proofs.T81BlockProofs proofs.T81ScanProofs proofs.T81HuffProofs proofs.T81WriterProofs proofs.T81WrittenProofs proofs.T81ParseInvProofs proofs.T81Examples
+  proofs.T81ArithProofs proofs.T81QMProofs proofs.T81AricomProofs proofs.T81ArithExamples.
 Import ListNotations.
 Local Open Scope Z_scope.
 
@@ -120,6 +121,59 @@ Theorem C04_length_fields :
   (forall s, seg_ok s = true -> 2 <= len_field s <= 65535).
 Proof. exact length_fields. Qed.
 Print Assumptions C04_length_fields.
+
+(* ---- arithmetic coding (Annex D, F.1.4 / F.2.4; sequential process SOF9) ---- *)
+(* (6) binarisation and statistics-bin selection (DC difference with conditioning context, AC
+   EOB / zero-run / magnitude decisions with the Kx split, fixed-estimate sign) are inverted by
+   the decoding procedures for an ABSTRACT binary coder (a decision source that answers only
+   for the bin that was coded), for every block sequence, prediction chain and DAC setting *)
+Theorem C04_arith_binarisation : forall cs blocks preds ctxs rest, ablocks_ok preds blocks ->
+  adec_blocks dsrc adecide cs preds ctxs (map fst blocks) (aenc_blocks cs preds ctxs blocks ++ rest) =
+  Some (blocks, rest).
+Proof. exact enc_dec_ablocks. Qed.
+Print Assumptions C04_arith_binarisation.
+
+(* (7) D.2 decoder registers: after Initdec and after every Decode(S), for every input and
+   every statistics state: X'8000' <= A <= X'10000', 0 <= C < A * 2^16 (Cx < A), 0 <= CT <= 8,
+   the low 16-CT bits of C are zero, the estimator indices stay inside Table D.3 *)
+Theorem C04_qm_decoder_registers :
+  (forall inp, isbytes inp -> dinv (qm_init_dec inp)) /\
+  (forall key q d q', dinv q -> qm_decode key q = Some (d, q') -> dinv q').
+Proof. exact (conj init_dec_inv qm_decode_inv). Qed.
+Print Assumptions C04_qm_decoder_registers.
+
+(* (8) D.1 encoder registers, after any sequence of decisions: X'8000' <= A <= X'10000',
+   0 <= C, C + A <= 2^(28-CT), 1 <= CT <= 11 (Byte_out sees at most one carry bit) *)
+Theorem C04_qm_encoder_registers : forall ds, qeinv (fold_left qm_encode ds qm_init_enc).
+Proof. exact qm_encode_all_inv. Qed.
+Print Assumptions C04_qm_encoder_registers.
+
+(* (9) Table D.3 of the specification model is the table of src/jaricom.c (regenerated from
+   the current source on every run) *)
+Theorem C04_table_D3_is_jaricom :
+  firstn 113 jaricom_table = qe_table /\ skipn 113 jaricom_table = [(23069, 113, 113, 0)].
+Proof. exact aricom_is_table_D3. Qed.
+Print Assumptions C04_table_D3_is_jaricom.
+
+(* not proved (partial): the D.2 decoder inverts the D.1 encoder (interval containment of the
+   flushed code string); exercised by the Examples and by both correspondence directions *)
+Definition C04_qm_roundtrip_full : Prop :=
+  forall ds, qm_decode_list ds (qm_encode_all ds) = map snd ds.
+
+Example C04_example_qm_roundtrip :
+  qm_decode_list ex_decisions (qm_encode_all ex_decisions) = map snd ex_decisions /\
+  length (qm_encode_all ex_decisions) = 88%nat.
+Proof. exact ex_qm_roundtrip. Qed.
+
+Example C04_example_arithmetic_stream :
+  exists bytes s, t81_emit_arith ex3_ch ex2_im = Some bytes /\ t81_parse bytes = Some s /\
+                  t81_decode_arith s = Some [(3, 2, [ex2_b 1; ex2_b 2; ex2_b 3; ex2_b 5; ex2_b 6; ex2_b 7]);
+                                             (2, 2, [ex2_b 7; ex2_b (-7); ex2_b 3; ex2_b 0])].
+Proof. exact ex3_runs. Qed.
+
+Example C04_example_ablocks_ok :
+  ablocks_ok [0; 0] [(0%nat, to_zigzag (ex2_b 5)); (1%nat, to_zigzag (ex2_b (-3))); (0%nat, to_zigzag (ex2_b 900))].
+Proof. exact ex_ablocks_ok. Qed.
 
 (* non-vacuity: the hypotheses of (1b) and (4) hold for concrete streams, which parse and
    decode to the coefficients written (8x8 grey; 17x9 two components 2x1/1x1, SOF1, 16-bit
